@@ -89,6 +89,54 @@ def deep_docs(fmt):
     return docs
 
 
+def sweep_docs(fmt, quick):
+    """Documents whose string / member name has every raw length around the parsers' internal buffers (json: 64-byte
+    literal buffer incl. the 8 spare bytes kept for unquoting; binary: length classes, 16/64-byte scratch), in the
+    flavours that choose different code paths: plain (by reference), escaped or ill-formed (copied), multi-byte."""
+    Ls = list(range(0, 72 if quick else 140)) + ([] if quick else [254, 255, 256, 257, 258, 1023, 1024, 1025, 4095, 4096, 4097])
+    if quick:
+        Ls += [120, 127, 128, 129, 255, 256, 257]
+    docs = []
+    for L in Ls:
+        plain = bytes(97 + (j % 26) for j in range(L))
+        if fmt == "json":
+            fl = [plain]
+            if L >= 2:
+                fl += [b"\\n" + plain[2:], plain[:-2] + b"\\t", plain[:-2] + "é".encode()]
+            if L >= 1:
+                fl += [plain[:-1] + b"\xff"]
+            if L >= 6:
+                fl += [plain[:-6] + b"\\u00e9"]
+            for t in fl:
+                docs.append(list(b'"' + t + b'"'))
+                docs.append(list(b'{"' + t + b'":1}'))
+                docs.append(list(b'[{"k":"' + t + b'","' + t + b'":null}]'))
+        elif fmt == "cborl":
+            def head(major, n):
+                if n < 24:
+                    return bytes([major << 5 | n])
+                if n < 256:
+                    return bytes([major << 5 | 24, n])
+                return bytes([major << 5 | 25, n >> 8, n & 255])
+            for t in [plain] + ([plain[:-2] + "é".encode()] if L >= 2 else []) + ([plain[:-1] + b"\xff"] if L >= 1 else []):
+                docs.append(list(head(3, L) + t))
+                docs.append(list(b"\xa1" + head(3, L) + t + b"\x01"))
+                docs.append(list(b"\x9f\xbf" + head(3, L) + t + head(3, L) + t + b"\xff\xff"))
+            docs.append(list(head(2, L) + plain))
+            docs.append(list(b"\x82" + head(2, L) + plain + b"\xf6"))
+        else:
+            def ulen(n):
+                return bytes([0x55, n]) if n < 256 else bytes([0x49, n >> 8, n & 255])
+            for t in [plain] + ([plain[:-2] + "é".encode()] if L >= 2 else []) + ([plain[:-1] + b"\xff"] if L >= 1 else []):
+                docs.append(list(b"S" + ulen(L) + t))
+                docs.append(list(b"{" + ulen(L) + t + b"Z}"))
+                docs.append(list(b"[{#U\x01" + ulen(L) + t + b"S" + ulen(L) + t + b"]"))
+            if L < 256:
+                docs.append(list(b"[$S#U\x02" + (ulen(L) + plain) * 2))
+                docs.append(list(b"[$U#" + ulen(L) + plain))
+    return docs
+
+
 def conformance_cases(ctx, prop, fmt, rows):
     """Every document through the one-shot Parse and through one more entry point (rotating): the value a parser
     reports must be the reference value whichever way the bytes arrive."""
@@ -110,6 +158,10 @@ def conformance_cases(ctx, prop, fmt, rows):
         cases.append(case(prop, "parse", fmt, doc=doc, origin="deep nesting"))
         e = other[n % 4]
         cases.append(case(prop, "parse", fmt, doc=doc, entry=e, origin="deep nesting via " + e, **sched_variants(ctx, doc, e, rnd)))
+    for n, doc in enumerate(sweep_docs(fmt, ctx.quick)):
+        cases.append(case(prop, "parse", fmt, doc=doc, origin="length sweep"))
+        e = other[n % 4]
+        cases.append(case(prop, "parse", fmt, doc=doc, entry=e, origin="length sweep via " + e, **sched_variants(ctx, doc, e, rnd)))
     return cases
 
 
@@ -179,17 +231,18 @@ def gen_events(ctx, quick=None, ext=True, docs=1, name="GenEvents"):
 ALL_OPTS = [dict(html=h, radix=r, ignf=i) for h in (False, True) for r in (False, True) for i in (False, True)]
 
 
-def stream_cases(ctx, prop, kind, shapes, fmts=("json", "ubjson", "cborl")):
+def stream_cases(ctx, prop, kind, shapes, fmts=("json", "ubjson", "cborl"), sweep=False):
     rnd = ctx.rng
     cases = []
     nf = 1 if ctx.quick else 3
     n = 0
-    for shape in shapes:
-        for st in streams.fills(shape, nf, rnd):
+    groups = [streams.fills(shape, nf, rnd) for shape in shapes] + ([streams.length_sweep(ctx.quick)] if sweep else [])
+    for group in groups:
+        for st in group:
             nonfin = any(streams.is_nonfinite(e) for e in st)
             for fmt in fmts:
                 if fmt == "json":
-                    opts = [ALL_OPTS[n % 8]] if ctx.quick else ALL_OPTS
+                    opts = [ALL_OPTS[n % 8]] if ctx.quick else [ALL_OPTS[n % 8], ALL_OPTS[(n + 3) % 8]]
                     if nonfin and ctx.quick:      # refusal and nulling are both part of the property
                         o = ALL_OPTS[n % 8]
                         opts = [dict(o, ignf=False), dict(o, ignf=True)]
@@ -277,7 +330,9 @@ def c03(ctx):
         rows = GENS[fmt](ctx, "any")
         for n, r in enumerate(rows):
             doc = r["doc"]
-            ents = ["parse", ENTRIES[1 + n % 4]] if ctx.quick else ENTRIES
+            # every input through the one-shot Parse and one more entry point (rotating); the thorough tier enumerates
+            # a longer bound (millions of inputs), so it keeps the same rotation instead of all five entries
+            ents = ["parse", ENTRIES[1 + n % 4]]
             for e in ents:
                 cases.append(case("C03", "parse", fmt, doc=doc, entry=e, measure=(e in ("parse", "decreader")),
                                   origin="Gen-any %s" % r["class"], **sched_variants(ctx, doc, e, rnd)))
@@ -379,7 +434,7 @@ def model_codec(ctx):
 def c07(ctx):
     model_codec(ctx)
     shapes = gen_events(ctx)
-    cases = stream_cases(ctx, "C07", "encode", shapes)
+    cases = stream_cases(ctx, "C07", "encode", shapes, sweep=True)
     tf, st = core.run_harness(ctx, cases)
     failed, n = core.tlc_validate(ctx, "TraceCodec", tf)
     return run.decide(
@@ -396,7 +451,7 @@ def c07(ctx):
 
 def c01(ctx):
     shapes = gen_events(ctx)
-    cases = stream_cases(ctx, "C01", "roundtrip", shapes)
+    cases = stream_cases(ctx, "C01", "roundtrip", shapes, sweep=True)
     tf, st = core.run_harness(ctx, cases)
     failed, n = core.tlc_validate(ctx, "TraceCodec", tf)
     return run.decide(
@@ -756,6 +811,9 @@ def c09_codec_cases(ctx):
         for n, r in enumerate(GENS[fmt](ctx, "lang")):
             e = ["parse", "write", "decbytes"][n % 3]
             cases.append(case("C09", "parse", fmt, doc=r["doc"], entry=e, origin="Gen %s" % r["class"], **sched_variants(ctx, r["doc"], e, rnd)))
+        for n, doc in enumerate(sweep_docs(fmt, ctx.quick) + deep_docs(fmt)):
+            e = ["parse", "write", "decbytes", "reader"][n % 4]
+            cases.append(case("C09", "parse", fmt, doc=doc, entry=e, origin="length sweep / deep nesting", **sched_variants(ctx, doc, e, rnd)))
         # inputs near the language: whatever of them a parser accepts must still be well-formed
         valid = [r["doc"] for r in GENS[fmt](ctx, "lang", quick=True) if r["class"] == "complete" and len(r["doc"]) >= 3]
         rnd.shuffle(valid)
@@ -835,6 +893,8 @@ def c11(ctx):
         v = gotypes.fill(r["V"], rnd, n)
         for via in vias:
             cases.append(case("C11", "gort", "go", sub=dict(T=r["T"], V=v, via=via), origin="GenGoType"))
+        if n % 4 == 0:      # the optional key cache of the unfolder must not be visible in the result
+            cases.append(case("C11", "gort", "go", sub=dict(T=r["T"], V=v, via=vias[-1], keycache=1 + (n // 4) % 3), origin="GenGoType, key cache"))
     # deep generic data below interface{} (the unfolder's scratch buffers grow with the nesting depth)
     def deep(d, kind):
         leaf = dict(k="iface", dyn=[dict(k="int")], e=[dict(k="int", ty="int", v=streams.canon(d))])
@@ -851,6 +911,20 @@ def c11(ctx):
                 cases.append(case("C11", "gort", "go", sub=dict(T=dict(k="iface"), V=deep(d, kind), via=via), origin="deep %s %d" % (kind, d)))
                 ST = dict(k="struct", f=[dict(name="I", tname="", opts=[], t=dict(k="iface")), dict(name="N", tname="", opts=[], t=dict(k="int"))])
                 cases.append(case("C11", "gort", "go", sub=dict(T=ST, V=dict(k="struct", f=[deep(d, kind), dict(k="int", ty="int", v=streams.canon(3))]), via=via), origin="deep %s %d in field" % (kind, d)))
+    # member names recurring across sibling maps, with the unfolder's key cache smaller than / equal to / larger than the name set
+    def I(x):
+        return dict(k="int", ty="int", v=streams.canon(x))
+    for hist in ([1, 2, 1], [1, 2, 3, 1, 2], [1, 1, 2, 2, 1], [3, 2, 1, 3, 2, 1, 1], [1, 2, 3, 4, 5, 1, 3, 5, 2, 4]):
+        names = [b"", b"a", b"bb", "c\u00e9".encode(), b"d" * 17, b"e" * 70]
+        V = dict(k="slice", e=[dict(k="map", m=[dict(key=list(names[h]), val=I(j)), dict(key=list(names[h - 1]), val=I(-j))]) for j, h in enumerate(hist)])
+        T = dict(k="slice", e=[dict(k="map", e=[dict(k="int")])])
+        VI = dict(k="iface", dyn=[dict(k="slice", e=[dict(k="iface")])],
+                  e=[dict(k="slice", e=[dict(k="iface", dyn=[dict(k="map", e=[dict(k="iface")])],
+                                              e=[dict(k="map", m=[dict(key=list(names[h]), val=dict(k="iface", dyn=[dict(k="int")], e=[I(j)]))])]) for j, h in enumerate(hist)])])
+        for cap in (0, 1, 2, 3, 8):
+            for via in ("direct", "json", "ubjson", "cborl"):
+                cases.append(case("C11", "gort", "go", sub=dict(T=T, V=V, via=via, keycache=cap), origin="recurring member names, key cache %d" % cap))
+                cases.append(case("C11", "gort", "go", sub=dict(T=dict(k="iface"), V=VI, via=via, keycache=cap), origin="recurring member names below interface{}, key cache %d" % cap))
     # self-referential types (hand-written registry)
     for tid, val in (("RecNode", dict(k="struct", f=[dict(k="int", ty="int", v=streams.canon(1)), dict(k="ptr", nil=True)])),
                      ("RecTree", dict(k="struct", f=[dict(k="str", ty="string", v=list(b"r")), dict(k="slice", nil=True), dict(k="map", nil=True)]))):
@@ -862,7 +936,8 @@ def c11(ctx):
     return run.decide(
         ctx, "TraceCodec", cases, tf, failed, nv, level_note="",
         rule="the TLC-enumerated (type, value) programs of GenGoType (see C12) plus self-referential named types, each folded and "
-             "unfolded into a fresh variable of the same type directly and through the JSON, UBJSON and CBOR encoder+parser; "
+             "unfolded into a fresh variable of the same type directly and through the JSON, UBJSON and CBOR encoder+parser, with the "
+             "unfolder's key cache off and (every 4th program, and slices of maps with recurring member names) on with capacities 0-8; "
              "TraceCodec!GoRtVerdict compares the reflection-projected result with the original through SFGoType!RoundTripOK (value "
              "equality with nil/empty identified, never-reported fields zero) and requires refusal-by-error for unsupported kinds. "
              "Distinct = distinct (type, value, transport); non-trivial = struct types.",
@@ -1006,6 +1081,7 @@ def c14(ctx):
             else:
                 st = gotypes.stream_for(T, rnd)                   # matching document, abandoned somewhere
             variants.append((st, None))
+        nullv = [(st, None) for st in gotypes.null_variants(T, rnd)]
         # announced lengths that the stream does not back with elements
         for e in (20, 28, 31, 62, 63):
             for kind in ("arrS", "objS"):
@@ -1021,8 +1097,9 @@ def c14(ctx):
                         variants.append((st2, {"2": e}))
         if ctx.quick:
             variants = variants[:3] + rnd.sample(variants[3:], 4)
+        variants += nullv
         for st, lenexp in variants:
-            cuts = sorted(set([len(st)] + [rnd.randint(0, len(st)) for _ in range(2)]))
+            cuts = sorted(set([len(st)] + [rnd.randint(0, len(st)) for _ in range(2 if (st, lenexp) not in nullv else 0)]))
             for k in cuts:
                 sub = dict(T=T, abandon=k, follow=follow)
                 if lenexp:
@@ -1034,7 +1111,8 @@ def c14(ctx):
     return run.decide(
         ctx, "TraceCodec", cases, tf, failed, nv, level_note="",
         rule="targets: the struct/slice/map/pointer/interface types of the TLC-enumerated GenGoType programs; streams (seeded): arbitrary "
-             "values (scalar for container, array for object, ...), documents built for OTHER types, matching documents, and containers "
+             "values (scalar for container, array for object, ...), documents built for OTHER types, matching documents, matching "
+             "documents with one nested value (the first, and seeded others) replaced by null, and containers "
              "announcing 2^20, 2^28, 2^31, 2^62, 2^63-1 elements (top level and inside a matching member) without backing them; each is "
              "delivered up to several abandon positions incl. the full stream; then Reset + SetTarget + a follow-up document on the same "
              "unfolder and on a new one. TraceCodec!UnfoldXVerdict requires outcome ok (error or success, never panic/hang), intact "
